@@ -27,13 +27,28 @@ RULE = ("unit expressions are generated from structured item lists (prefix, tabl
         "across UnitEnvironment scopes (2-3 successive environments defining the same custom symbols with other magnitudes / "
         "dimensions / prefixes, conversions inside each judged against the definitions current in the table); 30% of the "
         "accepted conversions repeated with an uncertainty attached (same value required); "
-        "the documented examples; values from {0, +-1, +-pi, 1e+-30, k*5e-324, random, arrays}. "
+        "reciprocal pairs also with arrays holding exact zeros; the empty unit as target in every form; np.sin/cos/tan on "
+        "rad, mrad, deg, arcmin, arcsec, bare numbers, powers of rad and other dimensions, np.arcsin/arccos/arctan on plain "
+        "numbers, %, PR, ppth, rad, m; augmented assignments (*=, /=, +=, -=) inside the Quantity histories; units written "
+        "twice in compound expressions; the documented examples; values from {0, +-1, +-pi, 1e+-30, k*5e-324, random, arrays}. "
         "non-trivial = conversion between two different expressions; distinct = (u, v, value) text")
 ASSUMPTIONS = [
     "A1: dimension exponents are small integers/fractions (|num*den| < 1e9), so Fraction.__eq__ (math.isclose on integer "
     "cross products) is integer equality",
-    "the unit parser is C03's: an expression is used only if BaseUnits(expr) reads it as the intended (unitid, exponent) "
-    "list, otherwise it is skipped; numeric literals inside a target expression (BaseUnits drops them) are not generated",
+    "unit expressions are written from structured items; a token prefix+symbol is generated only if, by the tables alone "
+    "(longest table symbol that is a suffix, rest an admissible prefix - the parser is not consulted), it denotes the intended "
+    "unit; the same unit may be written twice (km3/km, kg/s/s) and then stands for the summed exponent; numeric literals "
+    "inside a target expression (BaseUnits drops them; C03) are not generated",
+    "a reciprocal conversion of an array is judged element-wise where x_i != 0 and its shape must be the input's; every "
+    "accepted conversion must preserve the shape (scalar stays scalar, n elements stay n)",
+    "the empty unit as target: value() is judged for BaseUnits() only (None, '' and {} are falsy arguments meaning 'no "
+    "conversion requested' by the documented signature), to() for None, {}, BaseUnits(), Quantity(1), Quantity(tm)",
+    "np.sin/cos/tan/arcsin/arccos/arctan are judged as f(converted value) with |x_rad| <= 50 (tan: 1.4; arc: |y| <= 0.99), "
+    "relative and absolute tolerance 1e-12 (libm vs numpy may differ in the last ulp)",
+    "history streams: expected values are computed history-free from the tables (x*f(u)/f(v), followed through q*=k, q/=k, "
+    "q+=y v, q-=y v, to(Quantity)), tolerance 1e-12 relative plus 1e-12 of the operands of a sum (cancellation); "
+    "impl != model on inputs the specification does not speak about (folded dimensionless compounds -> rad, folded Quantity "
+    "targets) is counted and noted, never a failure; unit environments are closed in a finally block",
     "a Quantity-valued target has a scalar magnitude; value() is exercised with string/BaseUnits/dict targets only (it does "
     "not accept a Quantity)",
     "float magnitudes only (no Decimal); results outside [1e-290, 1e290] (overflow, underflow, subnormals) are compared "
@@ -53,8 +68,9 @@ EXTRA_OBLIGATIONS = []
 
 EXPS = [(1, 1), (1, 1), (1, 1), (2, 1), (-1, 1), (3, 1), (1, 2), (-3, 2), (-2, 1), (2, 3)]
 SCALARS = [0.0, 1.0, -1.0, math.pi, -math.pi, 1e30, 1e-30, 2.5, -123456.789, 6.02e23, 1e-9]
-QUANTITY_FORMS = ("q1", "qm", "unitattr", "unitcall", "scaled-unit")
+QUANTITY_FORMS = ("q1", "qm", "unitattr", "unitcall", "scaled-unit")     # "none" (None) only for the empty unit
 FLOAT_EXC = ("ZeroDivisionError", "OverflowError", "FloatingPointError")
+FLOAT_ERRORS = (ZeroDivisionError, OverflowError, FloatingPointError)
 ARRAYS = [[0.0, 1.0, -2.5], [1e-3, math.pi, 1e30], [5e-324, -1.0, 7.0, 1e-30]]
 
 
@@ -176,6 +192,7 @@ def gen_cases(ctx, cat, scale):
         for x, iu, iv in [(3.0, [("k", "m", (1, 1))], [(None, "m", (1, 1))]),
                           (4.0, [(None, "Hz", (1, 1))], [(None, "s", (1, 1))]),
                           (50.0, [(None, "Ohm", (1, 1))], [("m", "S", (1, 1))]),
+                          ([0.0, 2.0, 4.0], [(None, "Hz", (1, 1))], [(None, "s", (1, 1))]),
                           (6.0, [(None, "m", (1, 1))], [(None, "s", (1, 1))])]:
             cases.append(make_case(cat, rng, "corpus-forms", x, iu, iv, form=form))
     # -- all / sampled ordered pairs of table symbols sharing a dimension
@@ -221,7 +238,10 @@ def gen_cases(ctx, cat, scale):
         iv = expansion(cat, rng, dims, -1) if rng.random() < 0.5 else replace_items(cat, rng, iu, groups, -1)
         if not iv:
             continue
-        cases.append(make_case(cat, rng, "reciprocal", pick_value(rng, nonzero=True), iu, iv, rng))
+        x = pick_value(rng, nonzero=True)
+        if rng.random() < 0.25:      # an array holding exact zeros next to non-zero elements
+            x = rng.choice([[0.0, 2.0, 4.0], [1.0, 0.0, -0.5, 0.0], [0.0, 0.0, 3.0], [2.5, -0.0]])
+        cases.append(make_case(cat, rng, "reciprocal", x, iu, iv, rng))
     # -- bare number
     for _ in range((300 if thorough else 60) * scale):
         iv = rng.choice([
@@ -231,6 +251,22 @@ def gen_cases(ctx, cat, scale):
             [(None, "Hz", (1, 1))], [(None, "PR", (1, 1))], [("m", "rad", (2, 1))],
         ])
         cases.append(make_case(cat, rng, "number", pick_value(rng), [], iv))
+    # -- the empty unit (a plain number) as target, named in every way: dimensionless sources scale, others are refused
+    dimless = [t for t in cat.linear if all(d == 0 for d in cat.dimkey(t))]
+    for _ in range((400 if thorough else 60) * scale):
+        r = rng.random()
+        if r < 0.45:
+            t = rng.choice(dimless)
+            iu = [(pick_prefix(cat, rng, t), t, rng.choice([(1, 1), (1, 1), (2, 1), (-1, 1)]))]
+        elif r < 0.6:
+            iu = []
+        else:
+            iu = random_items(cat, rng, 2)
+        form = rng.choice(["none", "dict", "baseunits", "baseunits", "q1", "qm"])
+        c = make_case(cat, rng, "empty-target", pick_value(rng, nonzero=True), iu, [], form="str")
+        c.update({"form": form, "empty_target": True,
+                  "tm": rng.choice(TARGET_MAGS) if form == "qm" else (1.0 if form == "q1" else None)})
+        cases.append(c)
     # -- differing dimension: refusal
     n_ref = (3000 if thorough else 350) * scale
     reps = list(groups.values())
@@ -377,21 +413,39 @@ def judge(ctx, cat, case, imp, res, report=True):
     eu = case.get("src") or case["eu"]
     form = case.get("form", "str")
     qform = form in QUANTITY_FORMS
-    replay = {"stream": case["stream"], "x": x, "u": case["eu"], "src": case.get("src"), "recipe": case.get("recipe"), "env": case.get("env"), "v": case["ev"],
-              "iu": case["iu"], "iv": case["iv"], "form": form, "tm": case.get("tm")}
+    has_value = imp["value"] != "n/a"
+    replay = {"stream": case["stream"], "x": x, "u": case["eu"], "src": case.get("src"), "recipe": case.get("recipe"),
+              "env": case.get("env"), "v": case["ev"], "iu": case["iu"], "iv": case["iv"], "form": form, "tm": case.get("tm"),
+              "empty_target": case.get("empty_target")}
     frac = any(d != 1 for _, _, (n, d) in case["iu"] + case["iv"])
     rtol = 1e-9 if frac else 1e-12
     xs = U.as_list(x)
+    shape = [len(x)] if isinstance(x, list) else []
     spec = res["spec"]
     kind = spec["kind"]
+    # the reciprocal of an array is judged element by element where x_i != 0 (1/0 is not prescribed)
+    mask = [i for i, v in enumerate(xs) if v != 0] if kind == "reciprocal" else list(range(len(xs)))
+
+    def M(vals):
+        vals = U.as_list(vals)
+        return [vals[i] for i in mask] if len(vals) == len(xs) else vals
     sval = U.mag_back(spec["val"])
     if qform and sval is not None:      # in multiples of the target quantity
         sval = [v / case["tm"] for v in U.as_list(sval)]
     f1, f2 = U.b2f(spec["f1"]), U.b2f(spec["f2"])
-    numeric_ok = U.in_float_range([f1, f2]) and U.in_float_range([v * f1 for v in xs]) and \
-        (sval is None or U.in_float_range(sval)) and U.in_float_range(xs, lo=1e-300)
+    numeric_ok = U.in_float_range([f1, f2]) and U.in_float_range([v * f1 for v in M(xs)]) and \
+        (sval is None or U.in_float_range(M(sval))) and U.in_float_range(M(xs), lo=1e-300)
     mto = res["toq"] if qform else res["to"]
     tname = "to(%s target)" % form
+    # inputs the specification does not speak about (compared with the model, counted, never failing the check):
+    # a dimensionless compound (m/km) that Quantity.__init__ folded completely into a bare number, then -> rad;
+    # a Quantity target whose units were folded away by its constructor
+    u_nodim_nonempty = any(n != 0 for _, _, (n, d) in case["iu"]) and all(d == 0 for d in cat.dims_of_items(case["iu"])) and \
+        res["init"]["units"] == [] and imp["units0"] == []
+    v_folded = qform and all(d == 0 for d in cat.dims_of_items(case["iv"])) and mto is not None and mto["units"] == [] \
+        and bool(case["iv"])
+    single_rad = len(case["iv"]) == 1 and case["iv"][0][1] == "rad"
+    out_of_domain = (v_folded and kind != "same") or (kind == "refuse" and u_nodim_nonempty and single_rad)
     # ---------- impl vs model
     mv = res["value"]
     m_ok = "ok" in mv
@@ -402,13 +456,13 @@ def judge(ctx, cat, case, imp, res, report=True):
         det = "driver gave no Quantity-target result"
     elif float_exc:
         ctx.count("unjudged.float-exception")   # e.g. 1/(x*f) with x*f underflowing to 0
-    elif not qform and m_ok != i_ok:
+    elif has_value and m_ok != i_ok:
         det = "value(): impl %s, model %s" % ("ok" if i_ok else "raises " + imp.get("value_exc", ""), mv)
-    elif not qform and m_ok and numeric_ok and not U.close(imp["value"], U.mag_back(mv["ok"]), rtol):
+    elif has_value and m_ok and numeric_ok and not U.close(M(imp["value"]), M(U.mag_back(mv["ok"])), rtol):
         det = "value(): impl %r, model %r" % (imp["value"], U.mag_back(mv["ok"]))
     elif mto["ok"] != imp["to"]:
         det = "%s: impl ok=%s, model ok=%s" % (tname, imp["to"], mto["ok"])
-    elif numeric_ok and not U.close(imp["after_val"], U.mag_back(mto["val"]), rtol):
+    elif numeric_ok and not U.close(M(imp["after_val"]), M(U.mag_back(mto["val"])), rtol):
         det = "state after %s: impl %r, model %r" % (tname, imp["after_val"], U.mag_back(mto["val"]))
     elif mto["tag"] == 0 and imp["after"] != imp["before"]:
         det = "model keeps the state, impl changed it: %r -> %r" % (imp["before"], imp["after"])
@@ -416,22 +470,18 @@ def judge(ctx, cat, case, imp, res, report=True):
         det = "units after %s: impl %r, model %r" % (tname, imp["after_units"], mto["units"])
     elif imp["units0"] != res["init"]["units"]:
         det = "units after construction: impl %r, model %r" % (imp["units0"], res["init"]["units"])
-    if det:
+    if det and out_of_domain:
+        ctx.count("out-of-domain.model-differs")
+        if len(ctx.notes) < 20:
+            ctx.notes.append("outside the property's domain, impl != model (not judged): %s -> %s: %s" % (eu, case["ev"], det))
+    elif det:
         found.append(("disagreement", case["stream"], det))
     # ---------- impl vs spec (in-domain only)
-    # a dimensionless compound (m/km) that Quantity.__init__ folded completely into a bare number
-    u_nodim_nonempty = any(n != 0 for _, _, (n, d) in case["iu"]) and all(d == 0 for d in cat.dims_of_items(case["iu"])) and \
-        res["init"]["units"] == [] and imp["units0"] == []
-    v_folded = qform and all(d == 0 for d in cat.dims_of_items(case["iv"])) and mto is not None and mto["units"] == [] \
-        and bool(case["iv"])
     sfx = ":quantity-target" if qform else ""
-    if v_folded and kind != "same":
-        ctx.count("unjudged.folded-target")
+    if out_of_domain:
+        ctx.count("unjudged.folded-target" if v_folded else "unjudged.folded-number-to-rad")
     elif kind == "refuse":
-        single_rad = len(case["iv"]) == 1 and case["iv"][0][1] == "rad"
-        if u_nodim_nonempty and single_rad:
-            ctx.count("unjudged.folded-number-to-rad")
-        elif i_ok or imp["to"]:
+        if i_ok or imp["to"]:
             found.append(("violation", "refuse:accepted" + sfx,
                           "conversion between different dimensions %s -> %s (%s) is not refused: value()=%s, to() ok=%s"
                           % (eu, case["ev"], form, imp["value"], imp["to"])))
@@ -441,23 +491,29 @@ def judge(ctx, cat, case, imp, res, report=True):
                           % (eu, case["ev"], form, "" if not qform else " of magnitude %r" % case["tm"],
                              imp["before"], imp["after"])))
     else:
-        if kind == "reciprocal" and any(v == 0 for v in xs):
+        if kind == "reciprocal" and not mask:
+            ctx.count("unjudged.reciprocal-of-zero")
+        elif kind == "reciprocal" and not isinstance(x, list) and xs[0] == 0:
             ctx.count("unjudged.reciprocal-of-zero")
         elif float_exc:
             pass
-        elif (not qform and not i_ok) or not imp["to"]:
+        elif (has_value and not i_ok) or not imp["to"]:
             found.append(("violation", "%s:refused%s" % (kind, sfx),
                           "%s conversion %s -> %s (%s) of %r is refused (%s)" %
                           (kind, eu, case["ev"], form, x, imp.get("value_exc") or imp.get("to_exc"))))
+        elif (has_value and imp.get("value_shape") != shape) or imp.get("after_shape") != shape:
+            found.append(("violation", "%s:shape%s" % (kind, sfx),
+                          "%s -> %s (%s) of %r: the result has shape value()=%s / to()=%s instead of %s (element-wise conversion)" %
+                          (eu, case["ev"], form, x, imp.get("value_shape"), imp.get("after_shape"), shape)))
         elif not numeric_ok:
             ctx.count("unjudged.float-range")
         else:
             want_v = U.mag_back(spec["val"])
-            if not qform and not U.close(imp["value"], want_v, rtol):
+            if has_value and not U.close(M(imp["value"]), M(want_v), rtol):
                 found.append(("violation", "%s:value" % kind,
                               "%s -> %s (%s) of %r: value() gives %r, the property prescribes %r" %
                               (eu, case["ev"], form, x, imp["value"], want_v)))
-            elif not U.close(imp["after_val"], sval, rtol):
+            elif not U.close(M(imp["after_val"]), M(sval), rtol):
                 found.append(("violation", "%s:to-value%s" % (kind, sfx),
                               "%s -> %s of %r with the target given as %s%s: to() leaves %r, the property prescribes %r" %
                               (eu, case["ev"], x, form, "" if not qform else " of magnitude %r" % case["tm"],
@@ -520,8 +576,12 @@ def run_cases(ctx, cat, cases):
             continue
         imp = run_impl(c, cat)
         if "init" in imp:
-            ctx.disagreement(c["stream"], {"x": c["x"], "u": c["eu"], "v": c["ev"], "form": c.get("form")},
-                             "Quantity()/target construction failed: %s" % imp["init"])
+            if imp["init"].split(":")[-1] in FLOAT_EXC:
+                # (prefix*factor)**exponent overflowed while the units were built: a float-range effect
+                ctx.count("unjudged.float-exception-in-construction")
+            else:
+                ctx.disagreement(c["stream"], {"x": c["x"], "u": c["eu"], "v": c["ev"], "form": c.get("form")},
+                                 "Quantity()/target construction failed: %s" % imp["init"])
             continue
         ctx.count("form." + c.get("form", "str"))
         ctx.count("spec." + r["ok"]["spec"]["kind"])
@@ -567,6 +627,9 @@ def triple_stream(ctx, cat, count):
                 via = U.as_list(Quantity(xx, eu).to(ew).to(ev).value())
                 mid = U.as_list(Quantity(xx, eu).value(ew))
                 back = U.as_list(Quantity(xx, eu).to(ev).to(eu).value())
+            except FLOAT_ERRORS:
+                ctx.count("unjudged.float-exception")
+                continue
             except Exception as ex:
                 ctx.violation("same:refused", "same-dimension chain %s -> %s -> %s raised %r" % (eu, ew, ev, ex),
                               {"stream": "triple", "x": x, "u": eu, "w": ew, "v": ev})
@@ -659,12 +722,79 @@ def result_number_functions(ctx, cat, cases):
                 if q.units() is not None:
                     continue
                 got = float(np.sin(q).value())
+            except FLOAT_ERRORS:
+                ctx.count("unjudged.float-exception")
+                continue
             except Exception as e:
                 got = "raises %r" % (e,)
         want = math.sin(c["x"])
         if isinstance(got, str) or not U.close(got, want, 1e-12, 1e-15):
             ctx.violation("numberToRad:sin", "np.sin(%s) %s, sin of the bare number %r is %r" % (c["src"], got, c["x"], want),
                           {"stream": "result-number-sin", "src": c["src"], "recipe": c["recipe"], "x": c["x"]})
+
+
+# ------------------------------------------------------------------ trigonometric functions = conversion to / from radians
+def trig_stream(ctx, cat, count):
+    """np.sin/cos/tan convert their argument to rad, np.arcsin/arccos/arctan to a plain number: prefixed radians,
+    degrees, bare numbers (literal or results) follow x*f(u)/f(rad); other dimensions and powers of rad are refused"""
+    import numpy as np
+    from scinumtools.units import Quantity
+    rng = ctx.rng
+    angle_units = [[(None, "rad", (1, 1))], [("m", "rad", (1, 1))], [(None, "deg", (1, 1))], [(None, "'", (1, 1))],
+                   [(None, "''", (1, 1))], [], [(None, "rad", (2, 1))], [("m", "rad", (2, 1))], [(None, "rad", (-1, 1))],
+                   [(None, "m", (1, 1))], [(None, "%", (1, 1))], [(None, "sr", (1, 1))], [(None, "rad", (2, 2))]]
+    number_units = [[], [(None, "%", (1, 1))], [(None, "PR", (1, 1))], [(None, "ppth", (1, 1))], [(None, "rad", (1, 1))],
+                    [("m", "rad", (1, 1))], [(None, "m", (1, 1))], [(None, "deg", (1, 1))]]
+    cases = []
+    for _ in range(count):
+        fn = rng.choice(["sin", "cos", "tan", "arcsin", "arccos", "arctan"])
+        arc = fn.startswith("arc")
+        iu = rng.choice(number_units if arc else angle_units)
+        f = cat.factor_exact(iu)
+        f = float(f) if f is not None else 1.0
+        lim = 0.99 if arc else (1.4 if fn == "tan" else 50.0)
+        n = rng.choice([0, 0, 3])
+        ys = [rng.uniform(-lim, lim) for _ in range(max(1, n))]
+        x = [y / f for y in ys] if n else ys[0] / f
+        cases.append({"fn": fn, "x": x, "iu": iu, "iv": [] if arc else [(None, "rad", (1, 1))], "eu": U.render_items(iu)})
+    res = ctx.driver.ask_many([{"k": "conv", "x": U.mag_req(c["x"]), "u": cat.req_items(c["iu"]), "v": cat.req_items(c["iv"])}
+                               for c in cases])
+    for c, r in zip(cases, res):
+        ctx.count("stream.trig")
+        ctx.count("trig." + c["fn"])
+        ctx.case("trig|%s|%s|%r" % (c["fn"], c["eu"], c["x"]), True, {"np": c["fn"], "x": c["x"], "u": c["eu"]} if c["fn"] == "cos" else None)
+        replay = {"stream": "trig", "function": c["fn"], "x": c["x"], "u": c["eu"], "iu": c["iu"]}
+        if "ok" not in r:
+            ctx.disagreement("trig", replay, "driver error %s" % r)
+            continue
+        r = r["ok"]
+        with warnings.catch_warnings(), np.errstate(all="ignore"):
+            warnings.simplefilter("ignore")
+            try:
+                q = Quantity(list(c["x"]) if isinstance(c["x"], list) else c["x"], c["eu"])
+                out = getattr(np, c["fn"])(q)
+                got, gunits, gshape = U.as_list(out.value()), out.units(), list(np.shape(out.value()))
+            except Exception as e:
+                got, gunits = "err", repr(e)[:100]
+        pyf = getattr(np, c["fn"])
+        kind = r["spec"]["kind"]
+        want = None if r["spec"]["val"] is None else [float(pyf(v)) for v in U.as_list(U.mag_back(r["spec"]["val"]))]
+        mwant = None if "ok" not in r["value"] else [float(pyf(v)) for v in U.as_list(U.mag_back(r["value"]["ok"]))]
+        if (got == "err") != (mwant is None) or (mwant is not None and not U.close(got, mwant, 1e-12, 1e-12)):
+            ctx.disagreement("trig", replay, "np.%s(Quantity(%r,%r)): impl %r, model %r" % (c["fn"], c["x"], c["eu"], got, mwant))
+        if kind == "refuse":
+            if got != "err":
+                ctx.violation("trig:%s:accepted" % c["fn"],
+                              "np.%s(Quantity(%r, %r)) is not refused (gives %r) although %s does not convert to %s" %
+                              (c["fn"], c["x"], c["eu"], got, c["eu"], "a plain number" if not c["iv"] else "rad"), replay)
+        elif got == "err":
+            ctx.violation("trig:%s:refused" % c["fn"], "np.%s(Quantity(%r, %r)) raises %s" % (c["fn"], c["x"], c["eu"], gunits), replay)
+        elif not U.close(got, want, 1e-12, 1e-12) or gshape != ([len(c["x"])] if isinstance(c["x"], list) else []):
+            ctx.violation("trig:%s:value" % c["fn"],
+                          "np.%s(Quantity(%r, %r)) gives %r; %s of the value converted by x*f(u)/f(v) is %r" %
+                          (c["fn"], c["x"], c["eu"], got, c["fn"], want), replay)
+        elif gunits != ("rad" if not c["iv"] else None):
+            ctx.violation("trig:%s:units" % c["fn"], "np.%s(Quantity(%r, %r)) reports units %r" % (c["fn"], c["x"], c["eu"], gunits), replay)
 
 
 # ------------------------------------------------------------------ histories across unit environments
@@ -789,7 +919,13 @@ def gen_quantity_history(cat, rng, groups):
         t = rng.choice(g)
         iv = [(pick_prefix(cat, rng, t), t, (1, 1))]
         r = rng.random()
-        if r < 0.45:
+        if r < 0.18:      # augmented assignment is the binary operation: q *= k, q /= k, q += other, q -= other
+            k = rng.choice(["imul", "idiv", "iadd", "isub"])
+            if k in ("imul", "idiv"):
+                ops.append({"op": k, "k": rng.choice([3.0, 0.5, -2.0, 10.0]), "iv": None, "form": None, "tm": None})
+            else:
+                ops.append({"op": k, "y": rng.choice([1.0, 2.5, -4.0, 100.0]), "iv": iv, "form": None, "tm": None})
+        elif r < 0.45:
             ops.append({"op": "value", "iv": iv, "form": rng.choice(["str", "str", "baseunits", "dict"]), "tm": None})
         elif r < 0.85:
             form = rng.choice(FORMS)
@@ -810,6 +946,17 @@ def run_quantity_history(cat, x, iu, ops):
         for o in ops:
             try:
                 if o["op"] == "read":
+                    out.append((U.as_list(q.value()), q.units()))
+                    continue
+                if o["op"] in ("imul", "idiv", "iadd", "isub"):
+                    if o["op"] == "imul":
+                        q *= o["k"]
+                    elif o["op"] == "idiv":
+                        q /= o["k"]
+                    elif o["op"] == "iadd":
+                        q += Quantity(o["y"], U.render_items(o["iv"]))
+                    else:
+                        q -= Quantity(o["y"], U.render_items(o["iv"]))
                     out.append((U.as_list(q.value()), q.units()))
                     continue
                 target = make_target(cat, {"form": o["form"], "ev": U.render_items(o["iv"]), "iv": o["iv"], "tm": o["tm"]})
@@ -837,24 +984,49 @@ def quantity_history_stream(ctx, cat, count):
     hist = [(x, iu, ops) for x, iu, ops in hist
             if U.reads_as_intended(cat, iu)
             and all(o.get("iv") is None or U.reads_as_intended(cat, o["iv"]) for o in ops)]
-    reqs = []
+    reqs, atols = [], []
     for x, iu, ops in hist:
-        cur = iu
+        amp = 0.0
+        # `base`: the quantity's value expressed in its first unit u0, followed through the mutating steps
+        # (q *= k, q /= k, q += y v, q -= y v, and to(Quantity(tm, v)), which re-expresses it in multiples of tm v)
+        cur, base, f0 = iu, list(x) if isinstance(x, list) else x, cat.factor_exact(iu)
+
+        def upd(b, f):
+            return [f(v) for v in b] if isinstance(b, list) else f(b)
         for o in ops:
-            tgt = o["iv"] if o["iv"] is not None else cur
-            reqs.append({"k": "conv", "x": U.mag_req(x), "u": cat.req_items(iu), "v": cat.req_items(tgt)})
-            if o["op"] == "to":
+            k = o["op"]
+            if k == "imul":
+                base = upd(base, lambda v: v * o["k"])
+            elif k == "idiv":
+                base = upd(base, lambda v: v / o["k"])
+            elif k in ("iadd", "isub"):
+                dy = o["y"] * float(cat.factor_exact(o["iv"]) / f0) * (1 if k == "iadd" else -1)
+                amp = max([amp, abs(dy)] + [abs(v) for v in U.as_list(base)])     # operands of a possibly cancelling sum
+                base = upd(base, lambda v: v + dy)
+            elif k == "to" and o["tm"]:
+                base = upd(base, lambda v: v / o["tm"])
+            if k == "to":
                 cur = o["iv"]
+            tgt = o["iv"] if k in ("value", "to") else cur
+            reqs.append({"k": "conv", "x": U.mag_req(base), "u": cat.req_items(iu), "v": cat.req_items(tgt)})
+            atols.append(1e-12 * amp * abs(float(f0 / cat.factor_exact(tgt))))
+            if k in ("imul", "idiv"):
+                amp = amp * abs(o["k"]) if k == "imul" else amp / abs(o["k"])
+            elif k == "to" and o["tm"]:
+                amp = amp / abs(o["tm"])
     res = iter(ctx.driver.ask_many(reqs))
+    atols = iter(atols)
 
     def first_failure(x, iu, ops, exps):
         got = run_quantity_history(cat, x, iu, ops)
-        for i, (o, g, (want, wunits)) in enumerate(zip(ops, got, exps)):
+        for i, (o, g, (want, wunits, atol)) in enumerate(zip(ops, got, exps)):
+            if g[0] == "err" and g[1].startswith(FLOAT_EXC):
+                return None          # float-range effect: the rest of this history is not judged
             if g[0] == "err":
                 return i, "raises %s" % g[1]
             if not (U.in_float_range(want) and U.in_float_range(g[0])):
                 continue
-            if not U.close(g[0], want, 1e-12):
+            if not U.close(g[0], want, 1e-12, atol):
                 return i, "gives %r, x*factor(u)/factor(v) is %r" % (g[0], want)
             if wunits is not None and g[1] != wunits:
                 return i, "reports units %r instead of %r" % (g[1], wunits)
@@ -869,19 +1041,18 @@ def quantity_history_stream(ctx, cat, count):
         if any("ok" not in r or r["ok"]["spec"]["val"] is None for r in rs):
             ctx.disagreement("quantity-history", {"x": x, "u": U.render_items(iu), "ops": ops}, "driver: %s" % [r.get("error") for r in rs])
             continue
-        exps, scale, cur = [], 1.0, iu
+        exps, cur = [], iu
         for o, r in zip(ops, rs):
             sval = U.as_list(U.mag_back(r["ok"]["spec"]["val"]))
             if o["op"] == "to":
-                scale *= (o["tm"] or 1.0)
                 cur = o["iv"]
-            exps.append(([v / scale for v in sval], None if o["op"] == "value" else target_expression(U.render_items(cur))))
+            exps.append((sval, None if o["op"] == "value" else target_expression(U.render_items(cur)), next(atols)))
         f = first_failure(x, iu, ops, exps)
         if f is None:
             continue
         pairs = list(zip(ops, exps))[:f[0] + 1]
         ops_small, why = [c[0] for c in pairs], f[1]
-        if all(o["op"] != "to" for o in ops_small[:-1]) and len(ctx.violations) < 3:
+        if all(o["op"] in ("value", "read") for o in ops_small[:-1]) and len(ctx.violations) < 3:
             # only non-mutating steps before the failing one: they can be dropped without changing what is expected
             def fails(cand):
                 if cand[-1] is not pairs[-1]:
@@ -895,7 +1066,7 @@ def quantity_history_stream(ctx, cat, count):
         last = ops_small[-1]
         ctx.violation("quantity-history:%s" % last["op"],
                       "Quantity(%r, %r) after %s: %s(%s) %s" %
-                      (x, U.render_items(iu), [(o["op"], U.render_items(o["iv"]) if o["iv"] else None, o["form"]) for o in ops_small[:-1]],
+                      (x, U.render_items(iu), [(o["op"], U.render_items(o["iv"]) if o["iv"] else o.get("k"), o["form"] or o.get("y")) for o in ops_small[:-1]],
                        last["op"], U.render_items(last["iv"]) if last["iv"] else "", why),
                       {"stream": "quantity-history", "x": x, "iu": iu, "ops": ops_small})
 
@@ -1008,6 +1179,8 @@ def unit_history_stream(ctx, cat, count):
     def first_failure(q, exps):
         got = run_unit_history(q)
         for i, (o, g, (sv, mv, un)) in enumerate(zip(q, got, exps)):
+            if g[0] == "err" and g[1].startswith(FLOAT_EXC):
+                return None
             if g[0] == "err":
                 return i, "spec", "raises %s" % g[1]
             if not (U.in_float_range(sv) and U.in_float_range(g[0])):
@@ -1086,6 +1259,7 @@ def correspond(ctx: Ctx, scale=1):
     rn = gen_result_numbers(cat, ctx.rng, (1500 if ctx.tier == "thorough" else 200) * scale)
     run_cases(ctx, cat, rn)
     result_number_functions(ctx, cat, rn)
+    trig_stream(ctx, cat, (1500 if ctx.tier == "thorough" else 200) * scale)
     env_history_stream(ctx, (150 if ctx.tier == "thorough" else 15) * scale)
     quantity_history_stream(ctx, cat, (2000 if ctx.tier == "thorough" else 250) * scale)
     unit_history_stream(ctx, cat, (1500 if ctx.tier == "thorough" else 150) * scale)
